@@ -85,6 +85,10 @@ provide_references: Dict[str, Set[str]] = {}
 # Keep track of all the listeners that are referencing any provided data.
 all_reference_ids: Set[str] = set()
 
+# Keep track of `{% provide %}` tags whose body is still being rendered. Their data must not be
+# deleted yet, even if there are momentarily no references to it, as more components may follow.
+active_provide_ids: Set[str] = set()
+
 
 @contextmanager
 def managed_provide_cache(provide_id: str) -> Generator[None, None, None]:
@@ -102,9 +106,11 @@ def managed_provide_cache(provide_id: str) -> Generator[None, None, None]:
         elif provide_id not in provide_references and provide_id in provide_cache:
             provide_cache.pop(provide_id)
 
+    active_provide_ids.add(provide_id)
     try:
         yield
     except Exception as e:
+        active_provide_ids.discard(provide_id)
         # In case of an error in `Component.render()`, there may be some
         # references left hanging, so we remove them.
         new_reference_ids = all_reference_ids - all_reference_ids_before
@@ -117,6 +123,7 @@ def managed_provide_cache(provide_id: str) -> Generator[None, None, None]:
         raise e from None
 
     # Cleanup
+    active_provide_ids.discard(provide_id)
     cache_cleanup()
 
 
@@ -149,7 +156,8 @@ def unregister_provide_reference(reference_id: str) -> None:
 
         provide_references[provide_id].remove(reference_id)
 
-        # There are no more references to the provided data, so we can delete it.
-        if not provide_references[provide_id]:
+        # There are no more references to the provided data, so we can delete it,
+        # unless the `{% provide %}` tag is still rendering its body.
+        if not provide_references[provide_id] and provide_id not in active_provide_ids:
             provide_cache.pop(provide_id)
             provide_references.pop(provide_id)
